@@ -11,7 +11,7 @@ rmdir "$WT"
 git -C /repo worktree add -q "$WT" HEAD || exit 2
 cleanup() { git -C /repo worktree remove --force "$WT" >/dev/null 2>&1; rm -rf "$WT" /var/tmp/verif-alt-$$; }
 trap cleanup EXIT
-if ! git -C "$WT" apply "$PATCH"; then echo "PATCH-DOES-NOT-APPLY $PATCH"; exit 2; fi
+if ! git -C "$WT" apply "$PATCH" 2>/dev/null && ! git -C "$WT" apply -3 "$PATCH"; then echo "PATCH-DOES-NOT-APPLY $PATCH"; exit 2; fi
 if [ "${SKIP_BASELINE:-0}" != 1 ]; then
   for m in . publish; do
     if ! (cd "$WT/$m" && GOFLAGS=-mod=mod GOPROXY=off go test -vet=off -count=1 -timeout 180s ./... >/var/tmp/verif-wt-test.$$ 2>&1); then
